@@ -238,7 +238,121 @@ func (fx *FnExec) call0(fr *frame, st *State, res ssa.Value, cc *ssa.CallCommon)
 		}
 		return fx.havocCall(fr, st, key, args, rt, "call through function value")
 	}
+	if v, ok := fx.streamIntrinsic(fr, st, cc, callee, args, rt, pos); ok {
+		return v
+	}
 	return fx.staticCall(fr, st, callee, args, rt, pos)
+}
+
+// streamIntrinsic models three standard-library calls whose effect depends on the DYNAMIC type of an interface argument,
+// which a contract (keyed by function) cannot express, by rewriting them to typed pseudo-functions whose contracts are in
+// the prelude (byte-stream model: sbyte / srange / spos):
+//   binary.Read(r, binary.BigEndian, &x)  with x an 8/16/32/64-bit integer  ->  v, err := binary.readN(r); if err == nil { x = v }
+//   binary.Write(w, binary.BigEndian, v)  with v an 8/16/32/64-bit integer  ->  err := binary.writeN(w, v)
+//   io.CopyN(&b, r, n)                    with b a strings.Builder          ->  copied, err := io.copyNToBuilder(&b, r, n)
+// Anything else about these functions (other byte orders, slices, structs) falls through to their ordinary contracts.
+func (fx *FnExec) streamIntrinsic(fr *frame, st *State, cc *ssa.CallCommon, callee *ssa.Function, args []Val, rt types.Type, pos token.Pos) (Val, bool) {
+	if callee.Pkg == nil {
+		return nil, false
+	}
+	c := fx.c
+	path, name := callee.Pkg.Pkg.Path(), callee.Name()
+	mkSig := func(ps []*types.Var, rs []*types.Var) *types.Signature {
+		return types.NewSignatureType(nil, nil, nil, types.NewTuple(ps...), types.NewTuple(rs...), false)
+	}
+	v := func(n string, t types.Type) *types.Var { return types.NewVar(token.NoPos, nil, n, t) }
+	errT := types.Universe.Lookup("error").Type()
+	uintOf := func(w int) types.Type {
+		switch w {
+		case 8:
+			return types.Typ[types.Uint8]
+		case 16:
+			return types.Typ[types.Uint16]
+		case 32:
+			return types.Typ[types.Uint32]
+		}
+		return types.Typ[types.Uint64]
+	}
+	switch {
+	case path == "encoding/binary" && (name == "Read" || name == "Write") && len(cc.Args) == 3:
+		om, ok := cc.Args[1].(*ssa.MakeInterface)
+		if !ok || typeKey(om.X.Type()) != "binary.bigEndian" {
+			return nil, false
+		}
+		dm, ok := cc.Args[2].(*ssa.MakeInterface)
+		if !ok {
+			return nil, false
+		}
+		if name == "Read" {
+			pt, ok := under(dm.X.Type()).(*types.Pointer)
+			if !ok {
+				return nil, false
+			}
+			w, _, isInt := intWidth(pt.Elem())
+			if !isInt || isFloat(pt.Elem()) {
+				return nil, false
+			}
+			key := fmt.Sprintf("binary.read%d", w)
+			fc := fx.eng.db.Funcs[key]
+			if fc == nil {
+				return nil, false
+			}
+			ptr, ok := fx.val(fr, dm.X).(PtrV)
+			if !ok {
+				return nil, false
+			}
+			fx.callSeq++
+			sig := mkSig([]*types.Var{v("r", cc.Args[0].Type())}, []*types.Var{v("v", uintOf(w)), v("err", errT)})
+			res := fx.applyContract(fr, st, fc, nil, nil, []Val{args[0]}, sig, sig.Results(), pos, key)
+			tv, ok := res.(TupleV)
+			if !ok || len(tv) != 2 {
+				fx.oos("binary.Read model: unexpected result shape")
+			}
+			ev, _ := tv[1].(IfaceV)
+			isNil := c.Eq(ev.Tag, c.BVInt(0, 32))
+			if nv, ok := tv[0].(*Term); ok {
+				if cur, ok := fx.load(st, ptr).(*Term); ok && cur.Sort == nv.Sort {
+					fx.store(st, ptr, c.Ite(isNil, nv, cur))
+				} else {
+					fx.store(st, ptr, nv)
+				}
+			}
+			fx.note("binary.Read of a fixed-width integer in big-endian order is modelled as binary.readN (prelude) followed by the store of the value on success")
+			return tv[1], true
+		}
+		w, _, isInt := intWidth(dm.X.Type())
+		if !isInt || isFloat(dm.X.Type()) {
+			return nil, false
+		}
+		key := fmt.Sprintf("binary.write%d", w)
+		fc := fx.eng.db.Funcs[key]
+		if fc == nil {
+			return nil, false
+		}
+		val, ok := fx.val(fr, dm.X).(*Term)
+		if !ok {
+			return nil, false
+		}
+		fx.callSeq++
+		sig := mkSig([]*types.Var{v("w", cc.Args[0].Type()), v("v", uintOf(w))}, []*types.Var{v("err", errT)})
+		fx.note("binary.Write of a fixed-width integer in big-endian order is modelled as binary.writeN (prelude)")
+		return fx.applyContract(fr, st, fc, nil, nil, []Val{args[0], val}, sig, errT, pos, key), true
+	case path == "io" && name == "CopyN" && len(cc.Args) == 3:
+		dm, ok := cc.Args[0].(*ssa.MakeInterface)
+		if !ok || typeKey(dm.X.Type()) != "*strings.Builder" {
+			return nil, false
+		}
+		key := "io.copyNToBuilder"
+		fc := fx.eng.db.Funcs[key]
+		if fc == nil {
+			return nil, false
+		}
+		fx.callSeq++
+		sig := mkSig([]*types.Var{v("b", dm.X.Type()), v("r", cc.Args[1].Type()), v("n", types.Typ[types.Int64])}, []*types.Var{v("copied", types.Typ[types.Int64]), v("err", errT)})
+		fx.note("io.CopyN into a strings.Builder is modelled as io.copyNToBuilder (prelude)")
+		return fx.applyContract(fr, st, fc, nil, nil, []Val{fx.val(fr, dm.X), args[1], args[2]}, sig, sig.Results(), pos, key), true
+	}
+	return nil, false
 }
 
 func ifaceMethodKey(t types.Type, method string) string {
@@ -1358,4 +1472,47 @@ func fieldFuncKey(cc *ssa.CallCommon) string {
 		}
 	}
 	return ""
+}
+
+// streamIntrinsicStatic is the static (SSA-level) part of streamIntrinsic's matching, shared with the frame scanner:
+// the pseudo-function key, the SSA values standing for its parameters, and (binary.Read) the pointer written through.
+func streamIntrinsicStatic(cc *ssa.CallCommon, callee *ssa.Function) (key string, params []ssa.Value, target ssa.Value) {
+	if callee == nil || callee.Pkg == nil {
+		return "", nil, nil
+	}
+	path, name := callee.Pkg.Pkg.Path(), callee.Name()
+	switch {
+	case path == "encoding/binary" && (name == "Read" || name == "Write") && len(cc.Args) == 3:
+		om, ok := cc.Args[1].(*ssa.MakeInterface)
+		if !ok || typeKey(om.X.Type()) != "binary.bigEndian" {
+			return "", nil, nil
+		}
+		dm, ok := cc.Args[2].(*ssa.MakeInterface)
+		if !ok {
+			return "", nil, nil
+		}
+		if name == "Read" {
+			pt, ok := under(dm.X.Type()).(*types.Pointer)
+			if !ok {
+				return "", nil, nil
+			}
+			w, _, isInt := intWidth(pt.Elem())
+			if !isInt || isFloat(pt.Elem()) {
+				return "", nil, nil
+			}
+			return fmt.Sprintf("binary.read%d", w), []ssa.Value{cc.Args[0]}, dm.X
+		}
+		w, _, isInt := intWidth(dm.X.Type())
+		if !isInt || isFloat(dm.X.Type()) {
+			return "", nil, nil
+		}
+		return fmt.Sprintf("binary.write%d", w), []ssa.Value{cc.Args[0], dm.X}, nil
+	case path == "io" && name == "CopyN" && len(cc.Args) == 3:
+		dm, ok := cc.Args[0].(*ssa.MakeInterface)
+		if !ok || typeKey(dm.X.Type()) != "*strings.Builder" {
+			return "", nil, nil
+		}
+		return "io.copyNToBuilder", []ssa.Value{dm.X, cc.Args[1], cc.Args[2]}, nil
+	}
+	return "", nil, nil
 }
